@@ -361,6 +361,10 @@ func zzCheckQuiescent(mgr *Manager, model *zzWorld, label string) {
 					want = fs.sport == 443
 				case "sport:9":
 					want = false
+				case "mark:m":
+					want = mgr.tags["mark/m"].Matches.IsSet(uint(fs.id))
+				case "id:0", "id:0,1":
+					want = fs.id == 0 || (t.definition == "id:0,1" && fs.id == 1)
 				case zzSubDef:
 					// streams whose client port is at least that of a stream with client port 1000 (flow 0)
 					want = model.flows[0] != nil
@@ -538,6 +542,32 @@ func ZZ_SVC_Scenarios() {
 		mgr.updateTagJob("service/web", t, map[string]query.TagDetails{}, map[string]index.ConverterAccess{}, idxs, rel)
 		zzSettle(mgr)
 		zz.Assert(mgr.DelTag("service/web") != nil, "deltag.referenced-tag-is-refused")
+	case 10: // a stream is marked while the job of a tag that references the mark is in flight
+		imp("b.pcap")
+		zzSettle(mgr)
+		zz.Assert(mgr.AddTag("mark/m", "#777777", "id:0") == nil, "addtag")
+		zz.Assert(mgr.AddTag("tag/viam", "#888888", "mark:m") == nil, "addtag")
+		zzSettle(mgr)
+		var t tag
+		var idxs []*index.Reader
+		var rel indexReleaser
+		details := map[string]query.TagDetails{}
+		zzInService(mgr, func() { // what startTaggingJobIfNeeded does when it starts the job for tag/viam
+			ti := *mgr.tags["tag/viam"]
+			ti.Uncertain = mgr.allStreams
+			mgr.tags["tag/viam"] = &ti
+			t = ti
+			details["mark/m"] = mgr.tags["mark/m"].TagDetails
+			mgr.updatedStreamsDuringTaggingJob = bitmask.LongBitmask{}
+			mgr.resetStreamsDuringTaggingJob = bitmask.LongBitmask{}
+			mgr.addedStreamsDuringTaggingJob = bitmask.LongBitmask{}
+			mgr.taggingJobRunning = true
+			idxs, rel = mgr.getIndexesCopy(0)
+		})
+		zz.Assert(mgr.UpdateTag("mark/m", UpdateTagOperationMarkAddStream([]uint64{1})) == nil, "updatetag")
+		zzInService(mgr, func() { zz.Assert(mgr.tags["mark/m"].Matches.IsSet(1), "mark.accepted-mark-is-applied") })
+		mgr.updateTagJob("tag/viam", t, details, map[string]index.ConverterAccess{}, idxs, rel)
+		zzSettle(mgr)
 	case 9: // a tag is deleted while its tagging job is in flight; later imports make a merge eligible
 		var t tag
 		var idxs []*index.Reader
